@@ -3,6 +3,7 @@ import MetricsVerif.Driver.Prom
 import MetricsVerif.Model.Histogram
 import MetricsVerif.Model.Rolling
 import MetricsVerif.Model.DistBuilder
+import MetricsVerif.Model.Quantile
 
 /-
 Driver of the C15 models.  Ops (component `c15`):
@@ -23,6 +24,10 @@ Driver of the C15 models.  Ops (component `c15`):
   rsnapq <now>                  → <count> <sum> <quantile token>   (what a rendered summary shows)
   guard <buckets|metric|quantiles|duration> <n> → ok | err   the builder's guards: a slice of length n / a duration of n ns
   dist <global|~> <calls> <name>→ <type> histogram:<bounds> | <type> summary
+  qnew <q>                      → <value> <min|max|p>  Quantile::new (q and value in units of 1/1024, or nan/ninf/pinf)
+  qcfg <qs>                     → ok <n> | err         PrometheusBuilder::set_quantiles / parse_quantiles: stores the parsed list
+  rrender <now>                 → <label>:<shown>,…    the quantile lines of the rendered summary series, in order; shown =
+                                                       none | zero | <v> (bin of the retained sample v) | x<v> (exactly v)
 Values: `nan`, `ninf`, `pinf` or an integer.
 -/
 namespace MetricsVerif.Driver.C15
@@ -32,6 +37,7 @@ structure St where
   hists : List (Nat × Hist) := []
   summ : Option SummaryDist := none
   minU : Nat := 0
+  quantiles : List Quantile.Quantile := []
 
 def fvTok (s : String) : Option FV :=
   match s with
@@ -157,6 +163,27 @@ def handle (st : St) (args : List String) : Option (St × String) :=
     match DistBuilder.distributionFor global calls name with
     | .hist bounds _ _ _ => pure (st, s!"{ty} histogram:{"+".intercalate (bounds.map toString)}")
     | .summ _ _ => pure (st, s!"{ty} summary")
+  | ["qnew", q] => do
+    let q := Quantile.Quantile.new (← fvTok q)
+    let l := match q.label with
+      | .min => "min"
+      | .max => "max"
+      | .p => "p"
+    pure (st, s!"{showFV q.value} {l}")
+  | ["qcfg", qs] => do
+    let qs ← listTok fvTok qs
+    match Quantile.setQuantiles qs with
+    | some l => pure ({ st with quantiles := l }, s!"ok {l.length}")
+    | none => pure (st, "err")
+  | ["rrender", now] => do
+    let s ← st.summ
+    let lines := Quantile.renderQuantiles st.minU st.quantiles s.rolling (← now.toNat?)
+    let showShown : Quantile.Shown → String
+      | .placeholder => "none"
+      | .zeroClass => "zero"
+      | .near v => showFV v
+      | .exact v => "x" ++ showFV v
+    pure (st, showList (fun (ln : FV × Quantile.Shown) => s!"{showFV ln.1}:{showShown ln.2}") lines)
   | _ => none
 
 end MetricsVerif.Driver.C15
